@@ -90,18 +90,51 @@ def check_case(rng, res):
     if rng.random() < 0.5 and len(devs2) > 2:
         devs2.pop(rng.randrange(len(devs2)))
     res.count("second_groups")
-    exchange(rng, res, devs2, dict(
+    if not exchange(rng, res, devs2, dict(
         desc, second_group=[type(d).__name__ + ("(reused)" if d in devs
-                                                else "") for d in devs2]))
+                                                else "") for d in devs2])):
+        return
+    # two independent groups of the same classes alive at the same time
+    res.count("twin_groups")
+    exchange(rng, res, [classes[k]() for k in ks],
+             dict(desc, twin_group_of_the_same_classes=True),
+             twin=[classes[k]() for k in ks])
 
 
-def exchange(rng, res, devs, desc):
+def exchange(rng, res, devs, desc, twin=None):
+    """twin: devices of a second, independent group of the same controlling
+    process that is alive at the same time (same classes, hence the same
+    map size): nothing written here may show up there"""
     try:
         sg = ProcessSyncGroup(ParallelEtherCat("vf"), devs)
+        if twin is not None:
+            sgt = ProcessSyncGroup(ParallelEtherCat("vf"), twin)
     except Exception as ex:
         res.violation("unexplained:construct",
                       f"{type(ex).__name__}: {ex}", case=desc)
         return False
+    tvals = None
+    if twin is not None:
+        tnames = [sorted(type(d).c29_vars) for d in twin]
+        tvals = [[rand_value(rng, type(d).c29_vars[n]) for n in ns]
+                 for d, ns in zip(twin, tnames)]
+        for d, ns, row in zip(twin, tnames, tvals):
+            for n, v in zip(ns, row):
+                setattr(d, n, v)
+
+    def twin_intact(when):
+        if twin is None:
+            return True
+        got = [[getattr(d, n) for n in ns] for d, ns in zip(twin, tnames)]
+        res.count("twin_group_variables_checked",
+                  sum(len(r) for r in got))
+        if not rows_equal(twin, tnames, got, tvals):
+            res.violation("unexplained:groups-share-storage",
+                          f"{when}: the variables of an independent second "
+                          f"group of the same process changed from {tvals} "
+                          f"to {got}", case=desc)
+            return False
+        return True
     names = [sorted(type(d).c29_vars) for d in devs]
     # layout
     ranges = []
@@ -145,6 +178,8 @@ def exchange(rng, res, devs, desc):
                               witness=msg[2])
                 return False
             res.count("child_reads", sum(len(r) for r in vals))
+            if not twin_intact("after the parent wrote this group"):
+                return False
             if not rows_equal(devs, names, msg[1], vals):
                 res.violation("unexplained:child-sees-other-values",
                               f"parent wrote {vals}, child read {msg[1]}",
@@ -162,6 +197,8 @@ def exchange(rng, res, devs, desc):
                               witness=msg[2])
                 return False
             got = [[getattr(d, n) for n in ns] for d, ns in zip(devs, names)]
+            if not twin_intact("after the child wrote this group"):
+                return False
             res.count("parent_reads", sum(len(r) for r in back))
             if not rows_equal(devs, names, got, back):
                 res.violation("unexplained:parent-sees-other-values",
